@@ -784,6 +784,18 @@ func (t *T) fail(now bool, msg string) {
 	}
 }
 
+// failFrom propagates a non-fatal failure signalled on inner
+// (T handed to a Custom generator function) to t.
+func (t *T) failFrom(inner *T) {
+	inner.mu.RLock()
+	failed := inner.failed
+	inner.mu.RUnlock()
+
+	if failed != "" {
+		t.fail(false, string(failed))
+	}
+}
+
 func (t *T) failOnError() {
 	t.mu.RLock()
 	defer t.mu.RUnlock()
